@@ -38,6 +38,9 @@ def main():
         d = SEEDED / sid
         meta = json.loads((d / "meta.json").read_text())
         pid = meta["property"]
+        if meta.get("obsolete"):
+            print(f"{sid:28s} {pid} obsolete: {meta['obsolete'][:120]}")
+            continue
         wt = Path(f"/tmp/mut_{sid}_{os.getpid()}")
         sh(["git", "-C", "/repo", "worktree", "add", "-q", "--detach", str(wt), "HEAD"])
         res = {"id": sid, "property": pid, "tier": a.tier}
